@@ -288,6 +288,53 @@ class Ctx(object):
         self.notes.append("%s: binding self-test: %d/%d traces with a changed result and %d/%d traces with a dropped call rejected"
                           % (name, k1, len(probe), k2, len(probe)))
 
+    def virtual_trace_phase(self, name, ntraces, maxlen=40):
+        """code -> spec for C18: long random sessions on the C++ VirtualArray validated against the actions of Virtual.tla"""
+        import copy
+        import traces as trmod
+        only = os.environ.get("VERIF_ONLY_PHASES")
+        if only and name not in only.split(","):
+            return
+        built = self.build("opt")
+        trs, problems = trmod.record_virtual_traces(built["worker"], self.seed * 611953 + 5, ntraces, maxlen)
+        wd = os.path.join(self.workdir, name)
+        # ---- binding self-test: one more generator call than happened / an answer that differed / a held entry that was not
+        probe = [t for t in trs if len(t["events"]) >= 4][:6]
+        bads = []
+        for k, t in enumerate(probe):
+            b = copy.deepcopy(t)
+            ev = b["events"][min(2, len(b["events"]) - 1)]
+            if k % 3 == 0:
+                ev["delta"] += 1 if ev["o"]["op"] != "evict" else 0
+                ev["held"] = 1 - ev["held"] if ev["o"]["op"] == "evict" else ev["held"]
+            elif k % 3 == 1:
+                ev["same"], ev["raised"] = 1 - ev["same"], 1 - ev["raised"]
+            else:
+                ev["held"] = 1 - ev["held"]
+            bads.append(b)
+        if bads:
+            r, summary, rej = trmod.validate_virtual_traces(bads, os.path.join(wd, "selftest"))
+            if not summary or summary[1] < max(1, len(bads) - 2):
+                raise MachineryError("%s: binding self-test: corrupted sessions were accepted (%r)" % (name, summary))
+            self.notes.append("%s: binding self-test: %d of %d corrupted sessions rejected" % (name, summary[1], len(bads)))
+        r, summary, rej = trmod.validate_virtual_traces(trs, wd)
+        if not summary:
+            sys.stderr.write(r.log[-3000:] + "\n")
+            raise MachineryError("virtual trace validation did not complete")
+        nev = sum(len(t["events"]) for t in trs)
+        self.traces += summary[0]
+        self.trace_events += nev
+        self.phases.append({"phase": name, "module": "TraceVirtual", "traces": summary[0], "events": nev, "rejected": summary[1],
+                            "problems_seen_without_spec": len(problems), "tlc_wall_s": round(r.wall, 1)})
+        if trs:
+            self.samples.append({"virtual_session": {"cfg": trs[0]["cfg"], "events": trs[0]["events"][:4]}})
+        for m, why in problems:
+            self.report(m, m.get("worker_case"), None, why, phase=name)
+        for tid, line, why, detail in rej:
+            t = trs[int(tid) - 1]
+            self.report({"act": "virtual-trace", "cfg": t["cfg"], "events": t["events"][:int(line)]}, None, None,
+                        "session rejected by Virtual.tla at call %s (%s): %s" % (line, json.dumps(t["events"][int(line) - 1]), why), phase=name)
+
     def pychain_phase(self, name, ntraces, maxops, ops=None, kinds=("value", "validity", "crash", "exception")):
         """code -> spec for the repository's Python layer (L2): chains of high-level ak.* calls validated by TracePy.tla"""
         import copy
